@@ -226,7 +226,7 @@ def host_equals_controller(obs):
             cv = None if cv is None or i >= len(cv) else cv[i]
             if isinstance(v, str) or cv != v:
                 bad.append(dict(flush=k, handle=f"Future @{a}[{i}]", host=v, controller=cv))
-        for r, v in s["regs"].items():
+        for r, v in ([] if obs.get("late_reads") else s["regs"].items()):
             if r in seen_regs:
                 continue
             seen_regs.add(r)
